@@ -41,7 +41,7 @@ def run_hamiltonian_flags(rep, tier, rng):
     c15.setup()
     drv = _driver(rep, c15.DRIVER)
     # the Hermiticity claim of a Hamiltonian is checked on the matrix of every constructed instance: all ops of the C15 stream carry it
-    budget = 2500 if tier == "thorough" else 500
+    budget = 4000 if tier == "thorough" else 2500
 
     def cases():
         n = 0
